@@ -214,7 +214,7 @@ fn main() {
         "C09" => {
             let mut rng = rng::Rng::new(o.seed);
             let cases = streams::rules_cases(&mut rng, o.tier == "thorough");
-            run_rs_stream(&o, &mut rep, "rulesets", "every sequence of 0..3 (thorough 0..4) rules over 17 rule kinds (4 succeeding, 8 failing one per error class, 1 counting user function, 4 calls of a cacheable function with look-alike arguments: d1.0 / d1.00, f0.0 / f-0.0) exhaustively, plus random longer rulesets and non-map inputs; compared on the outcome list (length, order, each value / error kind + payload)", false, cases, "full");
+            run_rs_stream(&o, &mut rep, "rulesets", "every sequence of 0..3 (thorough 0..4) rules over 17 rule kinds (4 succeeding, 8 failing one per error class, 1 counting user function, 4 calls of a cacheable function with look-alike arguments: d1.0 / d1.00, f0.0 / f-0.0) exhaustively, plus rulesets of 40 / 70 / 130 / 300 failing rules of each error kind (and of all kinds in turn) followed by succeeding ones, eight 5- / 15- / 30-deep failing rules followed by succeeding ones, random longer rulesets and non-map inputs; compared on the outcome list (length, order, each value / error kind + payload)", false, cases, "full");
             serval::run_evaluate(&mut rep, &o.driver, o.workers, o.tier == "thorough", o.seed);
         }
         "C10" => {
